@@ -120,7 +120,7 @@ def gen_cases(ctx: ShardCtx, n: int) -> list[dict]:
                 if loc == 'ntp_servers' else rng.choice(['xsd', 'iso', 'head', 'http-ntp'])
             if rng.random() < 0.5:
                 params.setdefault('drift', '10')
-        stream = rng.choice(['bbb', 'bbb', 'tears'])
+        stream = rng.choice(['bbb', 'bbb', 'tears', 'mta'])
         cases.append({'route': route, 'stream': stream, 'manifest': manifest, 'mode': mode, 'params': params,
                       'now': now.isoformat(), 'loc': loc, 'mps': rng.choice(['c05mps', 'c05frac'])})
     return cases
@@ -182,6 +182,9 @@ def run_shard(ctx: ShardCtx) -> ShardResult:
     env = AppEnv()
     try:
         spk = {'bbb': env.add_fixture_stream('bbb'), 'tears': env.add_fixture_stream('tears')}
+        # stream layouts the fixtures do not have
+        from dlv import synth
+        synth.add_multitrack_audio_stream(env, res)
         add_mps_db(env, 'c05mps', [
             {'pid': 'p1', 'stream': 'bbb', 'start': 4, 'duration': 32,
              'tracks': [('video', 1, 'main'), ('audio', 2, 'main'), ('text', 4, 'main')]},
